@@ -437,7 +437,11 @@ func (q *Seq) Exec(op SOp) bool {
 				if reason == "" {
 					reason = "wamp.close.normal"
 				}
-				exp = append(exp, Exp{To: k, Text: "GOODBYE(" + reason + ")"})
+				if eff.All {
+					exp = append(exp, Exp{To: k, Alt: []string{"GOODBYE(" + reason + ")", "GOODBYE(" + reason + ")+all"}})
+				} else {
+					exp = append(exp, Exp{To: k, Text: "GOODBYE(" + reason + ")"})
+				}
 			}
 			for _, k := range eff.Kill {
 				exp = append(exp, m.Leave(k, true)...)
